@@ -632,7 +632,16 @@ def worker(job):
             return stats
 
     def runfn(sc, stats):
-        return run_scenario(r, sc, stats, thorough=(tier == "thorough"))
+        v = run_scenario(r, sc, stats, thorough=(tier == "thorough"))
+        if v:
+            # DESIGN.md section 1: a violation counts only if it reproduces 3/3 (same scenario, fresh processes)
+            again = [run_scenario(r, sc, vlib.Stats(), thorough=(tier == "thorough")) for _ in range(2)]
+            if any(a is None for a in again):
+                stats.inconclusive += 1
+                stats.cls("unreproducible_violation")
+                stats.extra["unreproducible_example"] = {"msg": v[:600], "reruns": [a and a[:200] for a in again], "scenario": vlib.jsonable(sc)}
+                return None
+        return v
     if nex:
         vlib.hyp_search(scenarios(r.brk), runfn, nex, seed, stats)
     return stats
